@@ -16,6 +16,7 @@
 -/
 import EasyMl.Lemmas.Transform
 import EasyMl.Lemmas.Equality
+import EasyMl.Lemmas.Swap
 
 namespace EasyMl.C13
 open EasyMl EasyMl.Spec
@@ -123,38 +124,16 @@ theorem reorder_eq_materialise_access [Inhabited ν] (v : TView ν α) (hv : v.l
     (names : List ν) :
     v.reorder names =
       if IsOrdering v.shape names then .ok (Tensor.ofVal (materialise (reordered v.lazy names)))
-      else .panic .explicit := by
-  unfold TView.reorder
-  by_cases hp : IsOrdering v.shape names
-  · obtain ⟨a, ha, hl⟩ := v.access_of_ordering names hv.shape.1 hp
-    have hav : a.lazy.Valid := hl ▸ reordered_valid hv names hp
-    simp only [ha, hp, if_true]
-    rw [a.iter_eq]
-    have := hav.fromOrPanic
-    simp only [TView.lazy_shape] at this
-    rw [this, hl]
-  · simp only [v.access_none names hv.shape.1 hp, hp, if_false]
+      else .panic .explicit :=
+  v.reorder_eq hv names
 
 /-- **transpose.**  The same with the dimension names staying in place (`TensorTranspose`). -/
 theorem transpose_eq_materialise_transposeView [Inhabited ν] (v : TView ν α) (hv : v.lazy.Valid)
     (names : List ν) :
     v.transpose names =
       if IsOrdering v.shape names then .ok (Tensor.ofVal (materialise (transposed v.lazy names)))
-      else .panic .explicit := by
-  unfold TView.transpose
-  rw [reorder_eq_materialise_access v hv names]
-  by_cases hp : IsOrdering v.shape names
-  · simp only [hp, if_true]
-    have hlen' : names.length = v.shape.length := by simpa using hp.length_eq
-    have hl : (v.shape.map (·.1)).length = (shapeFor v.shape names).length := by
-      simp [shapeFor_length, hlen']
-    congr 1
-    simp only [Tensor.ofVal, materialise, transposed, reordered, TView.lazy_shape,
-      setNames_eq_withNames, TView.lazy_get]
-    rw [withNames_map_snd _ _ hl]
-    congr 1
-    exact computeStrides_congr _ _ (withNames_map_snd _ _ hl).symm
-  · simp only [hp, if_false]
+      else .panic .explicit :=
+  v.transpose_eq hv names
 
 /-- The same two statements for a tensor built from `shape` and row-major `data`, in terms of
     the data alone. -/
@@ -167,13 +146,8 @@ theorem tensor_reorder_eq [Inhabited ν] (shape : Shape ν) (data : List α) (t 
     t.transpose names =
       (if IsOrdering shape names then
         .ok (Tensor.ofVal (materialise (transposed (ofData shape data) names)))
-       else .panic .explicit) := by
-  obtain ⟨hv, he, _⟩ := view_valid shape data t ht
-  have hs : t.view.shape = shape := he.1
-  unfold Tensor.reorder Tensor.transpose
-  rw [reorder_eq_materialise_access _ hv, transpose_eq_materialise_transposeView _ hv, hs,
-    materialise_congr (reordered_congr he names), materialise_congr (transposed_congr he names)]
-  exact ⟨rfl, rfl⟩
+       else .panic .explicit) :=
+  Tensor.reorder_eq_ofData shape data t ht names
 
 /-- Non-vacuity: reorder and transpose of a 2×3 tensor, and the rejection of a non-ordering. -/
 example :
@@ -182,6 +156,41 @@ example :
       (t.transpose ["b", "a"]) = .ok (Tensor.ofVal ⟨[("a", 3), ("b", 2)], [0, 3, 1, 4, 2, 5]⟩) ∧
       (t.reorder ["b", "b"]) = .panic .explicit := by
   refine ⟨_, rfl, ?_, ?_, ?_⟩ <;> rfl
+
+/-! ### in-place forms equal the allocating forms — every shape, square or not -/
+
+/-- **`reorder_mut` = `reorder`.**  For every tensor the constructors accept and every name
+    list, the in-place form returns exactly what the allocating form returns — the same panic on a
+    non-ordering, otherwise the same data, shape and strides.  For square 2-D tensors this is the
+    separate branch: the loop that swaps `[i,j]` with its image for `j ≥ i` while reading through
+    the *old* shape and strides (invariant: after any prefix of the loop exactly the cells touched
+    so far hold their final element; `Lemmas/Swap.lean: foldl_swaps`), with the identity ordering
+    a no-op; all other shapes take the fallback. -/
+theorem reorderMut_eq_reorder [Inhabited ν] (shape : Shape ν) (data : List α) (t : Tensor ν α)
+    (ht : Tensor.tryFrom shape data = some t) (names : List ν) :
+    t.reorderMut names = t.reorder names :=
+  reorderMut_eq_reorder' shape data t ht names
+
+/-- **`transpose_mut` = `transpose`**, every shape. -/
+theorem transposeMut_eq_transpose [Inhabited ν] (shape : Shape ν) (data : List α) (t : Tensor ν α)
+    (ht : Tensor.tryFrom shape data = some t) (names : List ν) :
+    t.transposeMut names = t.transpose names :=
+  transposeMut_eq_transpose' shape data t ht names
+
+/-- The square branch on its own (the statement the swap-loop invariant proves). -/
+theorem reorderMut_square_branch [Inhabited ν] (a b : ν) (n : Nat) (data : List α) (t : Tensor ν α)
+    (ht : Tensor.tryFrom [(a, n), (b, n)] data = some t) (names : List ν) :
+    t.reorderMut names = t.reorder names :=
+  reorderMut_square a b n data t ht names
+
+/-- Non-vacuity: a 3×3 tensor takes the square branch; swapped and identity orderings. -/
+example :
+    ∃ t, Tensor.tryFrom [("r", 3), ("c", 3)] (List.range 9) = some t ∧
+      (t.shape.length = 2 ∧ isSquare t.shape = true) ∧
+      t.reorderMut ["c", "r"] = .ok (Tensor.ofVal ⟨[("c", 3), ("r", 3)], [0, 3, 6, 1, 4, 7, 2, 5, 8]⟩) ∧
+      t.reorderMut ["r", "c"] = .ok (Tensor.ofVal ⟨[("r", 3), ("c", 3)], List.range 9⟩) ∧
+      t.reorderMut ["r", "x"] = .panic .explicit := by
+  refine ⟨_, rfl, ⟨rfl, rfl⟩, ?_, ?_, ?_⟩ <;> rfl
 
 /-! ### equality -/
 
